@@ -3,6 +3,7 @@ package main
 // Evaluation of spec expressions to SMT terms under a symbolic state.
 
 import (
+	"os"
 	"fmt"
 	"go/constant"
 	"go/token"
@@ -366,6 +367,9 @@ func (e *Env) evalIdent(name string) SVal {
 	}
 	if e.fn != nil {
 		if a := e.x.localByNameAt(e.fn, name, e.at); a != nil {
+			if os.Getenv("HV_LIST_LOCALS") != "" {
+				fmt.Fprintf(os.Stderr, "LOCALREF %s %s\n", e.fn.Name(), name)
+			}
 			ad := e.x.resolveAddr(a)
 			return SVal{T: e.x.loadAddr(e.locState(ad), ad), Ty: goT(ad.Typ)}
 		}
@@ -437,6 +441,15 @@ func (e *Env) evalSelect(n *ESelect) SVal {
 			if !isLocal {
 				if p := e.x.eng.pkgByName(id.Name, e.pkg); p != nil {
 					o := p.Scope().Lookup(n.Field)
+					if o == nil {
+						// several packages share the name (io/fs and the module's own fs): take the one that has the member
+						for _, c := range e.x.eng.byName[id.Name] {
+							if o2 := c.Scope().Lookup(n.Field); o2 != nil && o2.Exported() {
+								o = o2
+								break
+							}
+						}
+					}
 					if o == nil {
 						sfail("unknown %s.%s", id.Name, n.Field)
 					}
